@@ -59,7 +59,14 @@ def run_cases(args):
             same = re._dataset_info == ds._dataset_info
             same_json = json.loads(re._dataset_info.model_dump_json()) == json.loads(ds._dataset_info.model_dump_json())
             sm = [si.custom_metadata for si in re.shard_info_iterator("train")]
-            out["descr"].append({"i": i, "fmt": fmt, "comp": comp, "same": bool(same), "same_json": same_json,
+            # the writer records something it only knows after filling (and nothing else changes), saves the description, reopens
+            md2 = Metadata(description=text() + " (edited)", dataset_license=md.dataset_license, dataset_version=text(), download_from=text(),
+                           custom_metadata={"stats": rand_json(rng), "edited": True})
+            ds.metadata = md2
+            ds.write_config(updated_infos=[])
+            re2 = Dataset(root)
+            edited_same = json.loads(re2._dataset_info.model_dump_json()) == json.loads(ds._dataset_info.model_dump_json())
+            out["descr"].append({"i": i, "fmt": fmt, "comp": comp, "same": bool(same), "same_json": same_json, "edited_same": bool(edited_same),
                                  "shard_md_ok": all(m == shard_md for m in sm) and len(sm) > 0, "md": json.loads(md.model_dump_json())})
         except Exception as e:  # noqa: BLE001
             out["descr"].append({"i": i, "fmt": fmt, "comp": comp, "error": f"{type(e).__name__}: {str(e)[:200]}"})
@@ -158,6 +165,8 @@ def run(ctx):
     for d in res["descr"]:
         if "error" in d:
             ctx.report({"kind": "descr-error"}, f"create/reopen failed: {d['error']}", {"case": d})
+        elif not d.get("edited_same", True):
+            ctx.report({"kind": "descr-differs", "what": "edited"}, f"a description edited after filling and saved with write_config is not what a fresh open reads ({d['fmt']}/{d['comp']})", {"case": d})
         elif not (d["same"] and d["same_json"] and d["shard_md_ok"]):
             ctx.report({"kind": "descr-differs", "what": "shard_md" if not d["shard_md_ok"] else "info"}, f"reopened description differs from the writer's ({d['fmt']}/{d['comp']}: same={d['same']} json={d['same_json']} shard_md={d['shard_md_ok']})", {"case": d})
     for m in res["moves"]:
